@@ -14,7 +14,7 @@ META = {
         "datagrams, once each, in order, with the sender's address and exactly the bindings sent (uptime, trap OID, "
         "payload), also through the pythonic TrapInfo view."),
     "bounds": ["sequences of 1..3 datagrams (quick: 1..2 fully, 3 with a fixed first)", "valid notification: 0..3 payload bindings, value-type rotation 0..3",
-               "foreign community; truncation at 4 points; 6 garbage strings", "2 source addresses"],
+               "6 foreign communities (other, prefix, extension, empty, other case, one letter); truncation at 4 points; 6 garbage strings", "2 source addresses"],
     "outside": ["a real UDP socket", "SNMPv1 Trap-PDUs and SNMPv3 notifications", "arbitrary malformed datagrams (C20)"],
     "stubs": ["puresnmp.api.raw.listen -> stub capturing the decode closure", "x690.decode call budget (a parse that does not terminate counts as 'listener stopped')"],
     "assumptions": ["exceptions raised inside datagram_received are reported to the event loop's exception handler and do not stop the loop (asyncio semantics)"],
@@ -23,6 +23,7 @@ META = {
 UPTIME = C.O("1.3.0")
 TRAPOID_KEY = ber.oid("1.3.6.1.6.3.1.1.4.1.0")
 TRAP_OID = ber.oid("1.3.6.1.6.3.1.1.5.3")
+FOREIGN = [b"private", b"publi", b"public1", b"", b"Public", b"p"]
 GARBAGE = [b"", b"\x30", b"\x30\x80", b"\xff\xff", b"\x30\x05\x02\x01\x01", b"\x30\x84\xff\xff\xff\xff"]
 ADDRS = [("192.0.2.10", 40001), ("2001:db8::7", 162)]
 PAYLOAD = [("str", b"link down"), ("int", 2), ("oid", (1, 3, 6, 1, 2, 1, 2, 2, 1, 1, 7)), ("ip", bytes([10, 0, 0, 9])), ("c32", 99), ("tt", 4242),
@@ -56,7 +57,8 @@ def make_harness(nmax):
                     data, vbs = notification(npl, rot, rid=1000 + k)
                     plan.append((data, addr, vbs))
                 elif kind == 1:
-                    data, vbs = notification(1, choose(b_sym, 0, 3), community=b"private")
+                    foreign = FOREIGN[choose(a_sym, 0, len(FOREIGN) - 1)]
+                    data, vbs = notification(1, choose(b_sym, 0, 3), community=foreign)
                     plan.append((data, addr, None))
                 elif kind == 2:
                     data, vbs = notification(2, 1)
